@@ -5,6 +5,7 @@ from __future__ import annotations
 import time
 
 from ..machines.rows import RowMachine
+from ..machines.tables import TableMachine
 from .common import run_plan
 
 RULES = {
@@ -22,8 +23,24 @@ ASSUME = [
 def run(prop, tier, vseed):
     t0 = time.time()
     rm = RowMachine()
-    if tier == "quick":
-        plan = [(rm, [{"alphabet": "full", "depth": 2}, {"alphabet": "sub", "depth": 3}])]
+    tm = TableMachine({"save_reload": prop == "C02", "save_reload_depth": 1 if tier == "quick" else 2})
+    if tier == "quick" and prop == "C02":
+        plan = [
+            (rm, [{"alphabet": "full", "depth": 2}]),
+            (tm, [{"alphabet": "full", "depth": 1, "seeds": "xmlctor"},
+                  {"alphabet": "mini", "depth": 2, "seeds": "rep6"}]),
+        ]
+    elif tier == "quick":
+        plan = [
+            (rm, [{"alphabet": "full", "depth": 2}, {"alphabet": "mini", "depth": 3}]),
+            (tm, [{"alphabet": "full", "depth": 1, "seeds": "xmlctor"},
+                  {"alphabet": "mini", "depth": 2, "seeds": "rep"}]),
+        ]
     else:
-        plan = [(rm, [{"alphabet": "full", "depth": 3}, {"alphabet": "sub", "depth": 4}])]
+        plan = [
+            (rm, [{"alphabet": "full", "depth": 3}, {"alphabet": "sub", "depth": 4}]),
+            (tm, [{"alphabet": "full", "depth": 1, "seeds": "all"},
+                  {"alphabet": "full", "depth": 2, "seeds": "xmlctor"},
+                  {"alphabet": "mini", "depth": 3, "seeds": "rep"}]),
+        ]
     return run_plan(prop, tier, vseed, plan, RULES[prop], ASSUME, t0=t0)
